@@ -217,6 +217,8 @@ func accessPath(v ssa.Value, depth int) string {
 		return p + "[" + indexStr(x.Index, depth) + "]"
 	case *ssa.ChangeType:
 		return accessPath(x.X, depth+1)
+	case *ssa.TypeAssert:
+		return accessPath(x.X, depth+1)
 	case *ssa.Phi:
 		if x.Comment != "" {
 			return x.Comment
